@@ -100,6 +100,10 @@ FIXED = [
      "`macro m() { jump @a; @a; foo(); } def 0 { ~m(); end; }`: the only emitted op of the call had `called_in` null, the call position stood under the offset of the removed jump (1196 G-macro cases once macro bodies starting with a redundant jump were generated; pointed out by a sub-agent)"),
     ("C04", "fix: strings without a line break that can't be single line literals were printed as such when they start with a blank",
      "the string blank + backslash (also blank + form feed, blank + backslash + n ..) was printed as the single-line literal `' \\'`, a ParseError; it is printed as a one-line literal in triple quotes now, which is read as it stands (the former C04-backslash-and-indent list shrank from 1196 to the values with a line break)"),
+    ("C15", "fix: a call that goes back to a label was turned into a forever loop that is never left",
+     "`def 0 { op1(); @L0; call @L0; }` through the compile and the decompile command came back as `op1(); @label_0; forever { call @label_0; continue; }` (12 of 98.6k programs of the thorough tier)"),
+    ("C15", "fix: a block that ends with a call was not closed",
+     "`def 0 { @L0; while not ($V0 == 0) { } call @L0; }` came back as `@label_1; if ( $V0 == 0 ) { call @label_1; } jump @label_1;` (4 programs of the thorough tier)"),
     ("C02", "fix: dungeon mode values other than 0..3 were printed as the 'closed' constant",
      "`switch (dungeon_mode(D)) { case DMODE_OPEN: .. }` (or any constant / other number as case value or flag_SetDungeonMode value) decompiled to `case DMODE_CLOSE:` (476 of 55k inputs under seed rotation 2)"),
     ("C09", "fix: inserted break_loop/continue statements overwrote the source map entry of the op before them",
